@@ -282,7 +282,7 @@ package trace
 //@   modifies s.attributes, elemscap(s.attributes)
 
 //@ func (s *recordingSpan) End(options []trace.SpanEndOption)
-//@   prop C10
+//@   prop C10 C01
 //@   acquires s.mu
 //@   unchecked no-panic,frame processors are third-party values loaded from an atomic pointer; option plumbing in trace.NewSpanEndConfig is not under contract
 //@   requires s == nil || (s.tracer != nil && s.tracer.provider != nil)
